@@ -7,22 +7,8 @@ import Girc.Base.Utf8
 -/
 namespace Girc.Model
 
-structure Source where
-  name : Bytes
-  ident : Bytes
-  host : Bytes
-  deriving DecidableEq, Repr
-
-structure Event where
-  tags : Option Tags := none
-  source : Option Source := none
-  command : Bytes
-  params : List Bytes := []
-  deriving DecidableEq, Repr
-
-inductive Fault where
-  | indexOutOfRange | sliceBounds | nilDeref | diverge
-  deriving DecidableEq, Repr
+-- `Source`, `Event`, `Fault` and the checked primitives `sliceI`/`atI`/`indexByteI` are declared
+-- (under these same names) in Girc/Base/GoSem.lean, shared with the generated Gen/Funcs.lean.
 
 def BANG : Byte := 0x21
 def AT : Byte := 0x40
@@ -90,22 +76,6 @@ def parseEvent (raw0 : Bytes) : Option Event :=
         | some k => some { tags, source, command := toUpperAscii (rest.take k), params := parseParams (rest.drop (k + 1)) }
 
 /-! ### Parsing, mirroring the Go index arithmetic (for totality) -/
-
-def sliceI (s : Bytes) (lo hi : Int) : Except Fault Bytes :=
-  if 0 ≤ lo ∧ lo ≤ hi ∧ hi ≤ s.length then .ok ((s.drop lo.toNat).take (hi - lo).toNat)
-  else .error .sliceBounds
-
-def atI (s : Bytes) (i : Int) : Except Fault Byte :=
-  if 0 ≤ i ∧ i < s.length then
-    match s[i.toNat]? with
-    | some b => .ok b
-    | none => .error .indexOutOfRange
-  else .error .indexOutOfRange
-
-def indexByteI (s : Bytes) (b : Byte) : Int :=
-  match indexOf b s with
-  | none => -1
-  | some n => n
 
 /-- The `for { … }` loop that looks for the trailing parameter; state = `trailerIndex`. -/
 def trailerLoopGo (raw : Bytes) (j : Int) : Nat → Int → Except Fault (Option Int)
